@@ -96,6 +96,39 @@ Example C08_nonvacuous_hyps :
   ~ well_linked_b V30 demo_u = true.
 Proof. exact demo_hyps. Qed.
 
+(* context.Context parameters are for the generated code only: wherever one stands among the
+   parameters of a method (first, between, last), the operation is the one of the method without
+   it, and the annotated parameters are documented once each, in source order *)
+Theorem C08_context_param_erased : forall l1 n l2,
+  spec_params (l1 ++ SCtx n :: l2) = spec_params (l1 ++ l2).
+Proof. exact spec_params_ctx_anywhere. Qed.
+
+Theorem C08_annotated_params_kept : forall l, spec_params (map SAnn l) = l.
+Proof. exact spec_params_ann. Qed.
+
+Theorem C08_context_position_irrelevant : forall cfg c name verb path hidden ret err errors secu l1 n l2,
+  mk_dop cfg c (mkRoute name verb path hidden (spec_params (l1 ++ SCtx n :: l2)) ret err errors secu) =
+  mk_dop cfg c (mkRoute name verb path hidden (spec_params (l1 ++ l2)) ret err errors secu).
+Proof. exact ctx_position_irrelevant. Qed.
+
+(* non-vacuity: GetItem(ctx context.Context, id string, verbose bool) *)
+Example C08_context_first :
+  match cmd lib_model_ok (lib_model_ok_v V31) V31 ctx_first_u with
+  | Wrote d => map (fun o => map (fun p => (op_in p, op_name p)) (dop_params o)) (doc_ops d) =
+                 [[(s "path", s "id"); (s "query", s "verbose")]] /\ wf d = true
+  | Failed => False
+  end.
+Proof. exact ctx_first_example. Qed.
+
+(* a type whose Go name is not an OpenAPI identifier (type Größe struct): the modelled kin-openapi
+   identifier rule refuses the 3.0 document, which is built first in both dialects - nothing is written *)
+Example C08_non_ascii_type_name :
+  valid_ident non_ascii_name = false /\ valid_ident (s "Gr__e") = true /\
+  cmd lib_model_ok (lib_model_ok_v V31) V30 non_ascii_u = Failed /\
+  cmd lib_model_ok (lib_model_ok_v V31) V31 non_ascii_u = Failed /\
+  match emit V30 non_ascii_u with Some d => wf d | None => false end = true.
+Proof. exact non_ascii_example. Qed.
+
 Print Assumptions C08_refs_closed.
 Print Assumptions C08_sections.
 Print Assumptions C08_written_only_if_valid.
@@ -108,3 +141,8 @@ Print Assumptions C08_nonvacuous.
 Print Assumptions C08_sections_flows.
 Print Assumptions C08_renamed_variable.
 Print Assumptions C08_nonvacuous_hyps.
+Print Assumptions C08_context_param_erased.
+Print Assumptions C08_annotated_params_kept.
+Print Assumptions C08_context_position_irrelevant.
+Print Assumptions C08_context_first.
+Print Assumptions C08_non_ascii_type_name.
